@@ -48,6 +48,7 @@ def cases(draw, tier="quick", dim=3):
     for _ in range(3):
         rows.append(draw(GEN.per_label(n, st.sampled_from(pool))))
     sc.update({"dim": dim, "policy": draw(GEN.policies()), "mode": mode, "radii": None, "task": "detection" if dim == 3 else "detection2d", "rows": rows, "from_scores": draw(st.booleans()), "delta": draw(st.sampled_from([0.0, 1e-9, 1e-3, 0.05]))})
+    M._uuid_variants(draw, sc)  # objects without instance ids / ids shared between annotations: TP status is per result
     return sc
 
 
